@@ -241,4 +241,63 @@ static CaseResult handshake_spoof_case(Tape &t)
 	return r;
 }
 
+// Handshake steps that are answered with a SHORT reply (1..5 bytes, e.g. the first letters of a keyword) right behind a reply the
+// client has to ignore (wrong DNS id) that carries a complete keyword or value of the same step.  Differential (C12): the TEXT of
+// the ignored replies differs between the two runs (opt.variant), their lengths and everything else are the same.  "Replies that do not
+// match its recent queries are ignored" and "a datagram is interpreted from its own bytes only": what the client does next must not
+// depend on what the ignored reply left in the buffer its decoder wrote to.
+static CaseResult handshake_short_reply_case(Tape &t, const dif::CaseOpt &opt)
+{
+	CaseResult r;
+	scn::Config c;
+	c.qtype = 1 + (int)t.below(7);
+	c.downenc = (int)t.pick({3, 1, 1, 1, 1, 1});
+	c.frag = t.chance(1, 2) ? -1 : t.range(50, 1000);
+	c.lazy = t.chance(1, 3) ? 0 : 1;
+	c.raw_mode = false;
+	c.cli_seed = t.u32() | 1;
+	scn::Session s(c);
+	dif::apply_residue(opt);
+	dif::record(opt);
+	ScriptServer srv; srv.domain = c.domain; srv.password = Bytes(c.password.begin(), c.password.end());
+	srv.seed = t.u32(); srv.userid = (int)t.below(16);
+	srv.login_reply = "10.0.0.1-10.0.0.2-1130-27";
+	srv.attach();
+	uint32_t p_short = (uint32_t)t.range(150, 700);
+	int n_short = 0; int at[S_NSTEPS] = {0};
+	int variant = opt.variant & 1;
+	srv.policy = [&](ScriptServer &S, const refproto::Query &q, const sim::Datagram &dg, int step) -> bool {
+		if (step != S_S && step != S_O && step != S_N && step != S_L && step != S_V) return false;
+		if (t.below(1000) >= p_short) return false;
+		// the complete text the ignored reply carries: run 0 and run 1 differ in content, not in length
+		static const char *FULL[2][5] = {{"BADCODEC", "Lazy", "BADFRAG", "LNAK", "VNAKxxxxx"}, {"Base32\0\0", "Nope", "\0\x64goodx", "10.0", "VACKxxxxx"}};
+		static const size_t FLEN[5] = {8, 4, 7, 4, 9};
+		int k = step == S_S ? 0 : (step == S_O ? 1 : (step == S_N ? 2 : (step == S_L ? 3 : 4)));
+		Bytes full((const uint8_t *)FULL[variant][k], (const uint8_t *)FULL[variant][k] + FLEN[k]);
+		Bytes common((const uint8_t *)FULL[0][k], (const uint8_t *)FULL[0][k] + FLEN[k]);
+		char enc = (step == S_V) ? 'T' : S.downenc;
+		// (sent from the address of an off-path party when the transcript is recorded, so that the recorder can leave it out: its content
+		// is the one thing that differs between the two runs)
+		{ sim::Datagram x; x.src = opt.perturb ? opt.perturb_addr : dg.dst; x.dst = dg.src; x.data = refproto::make_answer((uint16_t)(q.id + 1 + t.below(60000)), q.name, q.qtype, full, enc, 1, 2); sim::W.send(x); }
+		// the matching reply: only the first 1..5 bytes of the keyword (the same in both runs)
+		size_t cut = 1 + t.below((uint32_t)std::min<size_t>(5, FLEN[k] - 1));
+		Bytes shortp(common.begin(), common.begin() + cut);
+		S.reply(dg, refproto::make_answer(q.id, q.name, q.qtype, shortp, enc, 1, 2));
+		n_short++; at[step]++;
+		return t.chance(1, 2);   // half of the time the honest answer follows as well (it arrives as a late duplicate)
+	};
+	s.start_client(0);
+	bool up = s.wait_handshake(0, 150);
+	if (up) sim::W.run_for(2000000);
+	std::string steps; for (int k = 0; k < S_NSTEPS; k++) if (at[k]) steps += fmt(" %s:%d", STEPNAME[k], at[k]);
+	r.render = c.describe() + fmt(" | short replies behind ignored complete ones: %d (%s ) handshake=%d", n_short, steps.c_str(), (int)up);
+	if (sim::W.livelock) r.fail("C06:no-return-to-select", "the client did not return to select()\n" + r.render);
+	dif::finish(opt);
+	r.nontrivial = n_short >= 1;
+	r.cls("handshake-short-replies-behind-ignored-ones");
+	if (n_short) r.cls("residue-sensitive-shape");
+	for (int k = 0; k < S_NSTEPS; k++) if (at[k]) r.cls(std::string("short-reply-at:") + STEPNAME[k]);
+	return r;
+}
+
 } // namespace c06
